@@ -147,6 +147,40 @@ printf '%s\\n' "$out"
             cases.append(("parse-rt", "parse " + hexs(quote(a)), [x.encode() for x in a], a))
         else:
             cases.append(("split-rt", "split " + hexs(" ".join(f[:2] + esc_blank(f[2:]) for f in a)), [x.encode() for x in a], a))
+    # templates with an expectation computed here (independent of the Lean model): every `{name}` whose name is a known
+    # key contributes exactly its value, `{}` the default, anything else - unknown names, lone or doubled braces - stays
+    import re as _re
+    for _ in range(80 if ctx.tier == "quick" else 800):
+        kvw = {"root": rng.choice(["/usr", "/o p"]), "port": rng.choice(["8080", "/dev/ttyUSB0"]), "hex": "a.hex"}
+        dflt = rng.choice(["D", "/dev/tty0"])
+        pieces = [rng.choice(["{root}", "{port}", "{hex}", "{}", "{nope}", "{", "}", "{{", "}}", "x", " ", "-D", "\"", ":", "program ", "é"]) for _ in range(rng.randint(1, 8))]
+        t = "".join(pieces)
+        expw = _re.sub(r"\{([^{}]*)\}", lambda m: dflt if m.group(1) == "" else kvw.get(m.group(1), m.group(0)), t)
+        cases.append(("expand-wf", (t, dflt, kvw), expw, (t, dflt, kvw)))
+    # compiler / linker argument vectors: clang.Cmd.Compile / Link with a program that prints its argv
+    pa = os.path.join(bindir, "printargs")
+    with open(pa, "w") as f:
+        f.write("#!/bin/sh\nfor a in \"$@\"; do printf '%s\\0' \"$a\"; done\n")
+    os.chmod(pa, 0o755)
+    flagpool = ["-O2", "-Wall", "-fPIC", "-Xlinker", "--icf=safe", "--gc-sections", "-Xclang", "-lm", "-lfoo", "-Ia", "-I", "a b", "-DX=1", "-Wl,-z,now", "-L/o p", "é", "-"]
+    for _ in range(60 if ctx.tier == "quick" else 600):
+        def envval():
+            if rng.random() < 0.35:
+                return ""
+            fl = [rng.choice(["-O2", "-Wall", "-fPIC", "-Xlinker --no-undefined", "-Xclang -foo", "-lm", "-Ia", "-DX=1", "-Wl,-z,now", "-Xlinker", "-g"]) for _ in range(rng.randint(1, 4))]
+            return rng.choice([" ", "  ", " "]).join(fl)
+        e1, e2, e3 = envval(), envval(), envval()
+        lists = [[rng.choice(flagpool) for _ in range(rng.randint(0, 5))] for _ in range(4)]
+        if rng.random() < 0.5:      # config repeats what the environment says (order- and multiplicity-significant tokens)
+            toks = (e1 + " " + e3).split()
+            if toks:
+                lists[2] += [rng.choice(toks), "-Xlinker", "--gc-sections", rng.choice(toks)]
+                lists[0] += [rng.choice(toks)]
+        enc = lambda l: ",".join(hexs(x) for x in l) if l else "."
+        line = "cc %s %s %s %s %s %s %s %s" % (hexs(pa), hexs(e1), hexs(e2), hexs(e3), enc(lists[0]), enc(lists[1]), enc(lists[2]), enc(lists[3]))
+        exp_c = e1.split() + e2.split() + lists[0] + lists[1] + lists[3]
+        exp_l = e1.split() + e3.split() + lists[2] + lists[3]
+        cases.append(("cc", line, (exp_c, exp_l), (e1, e2, e3, lists)))
     # build-constraint expressions: CheckTags(flags, exprs) vs (1) the Lean model and (2) the go tool itself
     # (`go list -tags ...` over files carrying the same `// +build` lines)
     n_sets = 6 if ctx.tier == "quick" else 40
@@ -162,8 +196,8 @@ printf '%s\\n' "$out"
         else:
             half = len(tagset) // 2
             fl = ["-tags=" + ",".join(tagset[:half]), "-x", "-tags", " ".join(tagset[half:]), "-tags=" + tagset[0]]
-        exprs = ["a", "!a", "a,b", "a b", "!a,!b", "!!a", "!", "", "linux", "!linux", "linux,gc", "windows a", "ignore", "!ignore", "$", "!$", "a,,b", "a,", ",", "t_1", "v1.2,!x"]
-        alpha = ["a", "b", "c", "x", "linux", "windows", "gc", "ignore", "!", "!", ",", ",", " ", "  ", "\t", "$", "t_1", "v1.2", "-"]
+        exprs = ["a", "!a", "a,b", "a b", "!a,!b", "!!a", "!", "", "linux", "!linux", "linux,gc", "windows a", "ignore", "!ignore", "$", "!$", "a,,b", "a,", ",", "t_1", "v1.2,!x", "unix", "!unix", "unix,linux", "amd64", "!amd64 a", "gc,unix", "gccgo", "!gccgo", "arm64", "darwin unix"]
+        alpha = ["a", "b", "c", "x", "linux", "windows", "gc", "ignore", "unix", "amd64", "darwin", "!", "!", ",", ",", " ", "  ", "\t", "$", "t_1", "v1.2", "-"]
         while len(exprs) < (40 if ctx.tier == "quick" else 120):
             exprs.append("".join(rng.choice(alpha) for _ in range(rng.randint(1, 7))))
         exprs = list(dict.fromkeys(e.strip(" \t") if rng.random() < 0.5 else e for e in exprs))
@@ -283,7 +317,7 @@ printf '%s\\n' "$out"
     # protocol lines; `expand` needs the model for every iteration order of the map
     lines_real, lines_model, index = [], [], []
     for ci, (kind, line, exp, meta) in enumerate(cases):
-        if kind == "expand":
+        if kind in ("expand", "expand-wf"):
             t, d, kv = line
             items = list(kv.items())
             enc = lambda its: ",".join(hexs(k) + "=" + hexs(v) for k, v in its) if its else "."
@@ -346,6 +380,19 @@ printf '%s\\n' "$out"
                 ctx.report("xenv:expansion:" + lines_real[ci], "ExpandEnv/ExpandEnvToArgs does not substitute exactly the referenced values",
                            {"template": meta[0], "env": meta[1], "expected": [exp_r, exp_args], "real": r, "line": lines_real[ci],
                             "note": "pkg-config/llvm-config are the stand-in scripts of checks/c17.py"})
+        elif kind == "expand-wf":
+            if r != "ok " + hexs(exp):
+                spec_fail += 1
+                ctx.report("envtemplate:expansion:" + lines_real[ci], "ExpandEnvWithDefault does not substitute exactly the referenced values",
+                           {"template": meta[0], "default": meta[1], "env": meta[2], "expected": exp, "real": r, "line": lines_real[ci]})
+        elif kind == "cc":
+            exp_c, exp_l = exp
+            want = "ok " + (" ".join(hexs(a) for a in exp_c) if exp_c else ".") + " | " + (" ".join(hexs(a) for a in exp_l) if exp_l else ".")
+            if r != want:
+                spec_fail += 1
+                ctx.report("clang:argv:" + lines_real[ci], "clang.Cmd.Compile/Link do not hand the compiler exactly env flags ++ config flags ++ arguments (a flag was lost, reordered or de-duplicated)",
+                           {"CCFLAGS": meta[0], "CFLAGS": meta[1], "LDFLAGS": meta[2], "config_CCFLAGS_CFLAGS_LDFLAGS_args": meta[3],
+                            "expected_compile_argv": exp_c, "expected_link_argv": exp_l, "real": r, "line": lines_real[ci]})
         elif kind == "check":
             fl_, exprs_ = meta
             got = r[3:] if r.startswith("ok ") else r
